@@ -135,6 +135,31 @@ CHECKS.update({
         note="trusted: TLC, the harness's character classification and output parser; protodump's exit status and stderr as sensors", ref="7 (C20)"),
 })
 
+CHECKS.update({
+    "C11": dict(
+        technique="TLA+ spec (Dispatch: MsgType cache protocol, DispatchTable: per-flavour decision table) + TLC model checking of all interleavings of racing first classifications "
+                  "(MCDispatch; store-before-deduce kept as expected violation) + TLC trace validation of recorded csproto API calls on every flavour (TraceDispatch)",
+        text="every corpus fast-marshal type of gogo / google-v2 / legacy google-v1 plus plain well-known and descriptor types of both module families, and values no runtime owns, go "
+             "through csproto.{Marshal, Unmarshal, Size, Clone, Equal, Reset, MarshalText, GrpcCodec, MsgType}; the harness measures agreement with the owning runtime's own function in both "
+             "directions; G goroutines race on first classification after VerifResetMsgTypeCache (separate processes for fresh caches).",
+        note="trusted: TLC, the runtimes' own functions as the oracle for 'the runtime's own result'; legacy google-v1 types are gogo output with the import rewritten", ref="7 (C11)"),
+    "C12": dict(
+        technique="TLA+ spec (Extensions: abstract extension state) + TLC enumerating every Set/Clear/ClearAll script of bounded depth (MCExtensions) replayed on real messages + TLC trace "
+                  "validation of all observations after every step (TraceDispatch!ExtOK)",
+        text="TLC-generated scripts over three extension slots x two values are replayed on the extendable corpus message of each flavour under five slot-to-kind mappings (int32, string, "
+             "message, enum, bytes, sint64, fixed32, double, bool ...); after each step Has/Get/Range/field-number/marshaled bytes/runtime's own Has must equal the model state; mismatching "
+             "descriptor probes (descriptor of another runtime) must give false/error and leave the message untouched.",
+        note="trusted: TLC, the owning runtime's extension API as oracle; the size-cache word is zeroed before the marshal observation (C09's recorded finding is not C12's)", ref="7 (C12)"),
+    "C18": dict(
+        technique="TLA+ spec (TraceDispatch!JsonOK: option/effect table and acceptance table of the JSON adapters) + TLC trace validation of recorded MarshalJSON/UnmarshalJSON calls over the "
+                  "option product",
+        text="corpus message values (enums, 64-bit integers, bytes, maps, oneofs, nested, well-known and descriptor types) x three flavours x 2^3 marshal options x indent strings: output must "
+             "be valid JSON, decode with the adapter and with the runtime's own JSON decoder to an equal message, and show exactly the option's effect; unmarshal inputs with/without unknown "
+             "keys and missing required fields x 2^2 options must be accepted exactly as documented; nil and non-pointer values.",
+        note="trusted: TLC, encoding/json.Valid, the runtimes' own jsonpb/protojson decoders; effects are measured on the JSON text by the harness (enum rendered as number, zero key present, "
+             "line prefixes)", ref="7 (C18)"),
+})
+
 NOT_YET = {
     "C04": "check not built yet (generated-code corpus pipeline in progress)",
     "C05": "check not built yet (generated-code corpus pipeline in progress)",
